@@ -148,7 +148,8 @@ def independent_unpack(fmts, raw, data):
 
 
 FMT_POOL = ["B", "H", "I", "Q", "b", "h", "i", "q", "HB", "H2xH", "4s", "BBH", "IH",
-            "f", "d", "?", "Hf"]
+            "f", "d", "?", "Hf",
+            "0I", "0s", "3x", "0H"]     # formats that occupy no bytes, or carry no value
 BIG_FMTS = ["1025s", "1300s", "1024s", "300I", "700H"]     # large areas, read in one go
 FLOATS = [0.0, -0.0, 1.5, -2.25, 1024.0, -0.0, 0.0]
 
